@@ -5,7 +5,7 @@ timestamp, for bare and quoted metric names, with and without labels.
 import PromVerif.Lemmas.TextParseLabels
 import PromVerif.Model.TextParse
 namespace PromVerif.Lemmas.TextParse
-open PromVerif.Py PromVerif.Model.Escape PromVerif.Model.ParseCore PromVerif.Model.Validation PromVerif.Model.TextExpo
+open PromVerif.Py PromVerif.Model PromVerif.Model.Escape PromVerif.Model.ParseCore PromVerif.Model.Validation PromVerif.Model.TextExpo
 open PromVerif.Model.TextParse
 open PromVerif.Generated.Validation PromVerif.Lemmas.Escape PromVerif.Lemmas.Scanner
 
@@ -213,6 +213,355 @@ theorem pvt_valTs (pyInt : Str → Option Int) (pyFloat : Str → Option Nat) {t
     have hc : (tok ++ ' ' :: intStr m).contains ' ' = true := by simp
     simp only [hc, ↓reduceIte, splitOnChar_append _ hsp, splitOnChar_of_not_mem hsp', List.map_cons, List.map_nil,
       strip_numTok h, strip_numTok hm, List.filter_cons, hne, hne', Bool.not_false, List.filter_nil]
+    rfl
+
+-- the sample line ------------------------------------------------------------------------------------------------
+
+theorem rstripSet_append_singleton_of (p : Char → Bool) (a : Str) (c : Char) (h : p c = true) :
+    rstripSet p (a ++ [c]) = rstripSet p a := by
+  induction a with
+  | nil => simp [rstripSet, h]
+  | cons x xs ih => simp only [List.cons_append, rstripSet, ih]
+
+theorem valTs_last {tok : Str} (h : NumTok tok) (ms : Option Int) :
+    ∃ b, (valTs tok ms).getLast? = some b ∧ isPySpace b = false := by
+  unfold valTs
+  cases ms with
+  | none =>
+    simp only [List.append_nil]
+    cases hl : tok.getLast? with
+    | none => exact absurd (List.getLast?_eq_none_iff.mp hl) h.1
+    | some b => exact ⟨b, rfl, numChar_not_space (h.2 b (List.mem_of_getLast? hl))⟩
+  | some m =>
+    have hm := intStr_numTok m
+    cases hl : (intStr m).getLast? with
+    | none => exact absurd (List.getLast?_eq_none_iff.mp hl) hm.1
+    | some b =>
+      refine ⟨b, ?_, numChar_not_space (hm.2 b (List.mem_of_getLast? hl))⟩
+      simp only []
+      rw [List.getLast?_append, List.getLast?_cons, hl]
+      rfl
+
+/-- stripping a rendered line removes exactly the final line feed -/
+theorem strip_line {hd : Str} {a : Char} (hh : hd.head? = some a) (ha : isPySpace a = false) {tok : Str} (h : NumTok tok)
+    (ms : Option Int) :
+    strip (hd ++ ' ' :: valTs tok ms ++ ['\n']) = hd ++ ' ' :: valTs tok ms := by
+  obtain ⟨b, hb, hbs⟩ := valTs_last h ms
+  have hhead : (hd ++ ' ' :: valTs tok ms ++ ['\n']).head? = some a := by
+    cases hd with
+    | nil => simp at hh
+    | cons x xs => simpa using hh
+  rw [strip_of_head hhead ha]
+  unfold rstrip
+  rw [show hd ++ ' ' :: valTs tok ms ++ ['\n'] = (hd ++ ' ' :: valTs tok ms) ++ ['\n'] by simp]
+  rw [rstripSet_append_singleton_of _ _ _ (by decide)]
+  apply rstrip_of_last (b := b) _ hbs
+  rw [List.getLast?_append, List.getLast?_cons, hb]
+  rfl
+
+/-- text the scanner passes because it has no quote, no backslash and no wanted character -/
+def PlainFor (chs : Char → Bool) (s : Str) : Prop := ∀ c ∈ s, c ≠ '"' ∧ c ≠ '\\' ∧ chs c = false
+
+theorem plainFor_append {chs : Char → Bool} {a b : Str} (ha : PlainFor chs a) (hb : PlainFor chs b) : PlainFor chs (a ++ b) := by
+  intro c hc
+  rcases List.mem_append.mp hc with h | h
+  · exact ha c h
+  · exact hb c h
+
+theorem plainFor_valTs {chs : Char → Bool} (hsp : chs ' ' = false) (hn : ∀ c, isNumChar c = true → chs c = false) {tok : Str}
+    (h : NumTok tok) (ms : Option Int) : PlainFor chs (' ' :: valTs tok ms) := by
+  have hnum : ∀ t, NumTok t → PlainFor chs t := fun t ht c hc =>
+    ⟨numChar_ne (ht.2 c hc) (by decide), numChar_ne (ht.2 c hc) (by decide), hn c (ht.2 c hc)⟩
+  have hs : PlainFor chs [' '] := by
+    intro c hc; simp at hc; subst hc; exact ⟨by decide, by decide, hsp⟩
+  unfold valTs
+  cases ms with
+  | none => simpa using plainFor_append hs (hnum tok h)
+  | some m =>
+    have := plainFor_append hs (plainFor_append (hnum tok h) (plainFor_append hs (hnum _ (intStr_numTok m))))
+    simpa using this
+
+theorem plainFor_legacy {chs : Char → Bool} (hl : ∀ c, isLegacyChar c = true → chs c = false) {n : Str}
+    (hc : ∀ c ∈ n, isLegacyChar c = true) : PlainFor chs n :=
+  fun c hm => ⟨legacyChar_ne (hc c hm) (by decide), legacyChar_ne (hc c hm) (by decide), hl c (hc c hm)⟩
+
+theorem numChar_eq_false {c d : Char} (h : isNumChar c = true) (hd : isNumChar d = false) : (c == d) = false := by
+  simpa using numChar_ne h hd
+theorem legacyChar_eq_false {c d : Char} (h : isLegacyChar c = true) (hd : isLegacyChar d = false) : (c == d) = false := by
+  simpa using legacyChar_ne h hd
+
+/-- a legacy metric name that is not an F2 name: exact match, legacy characters only -/
+theorem legacyName_chars {n : Str} (hv : isValidLegacyMetricName n = true) (hn : n.getLast? ≠ some '\n') :
+    n ≠ [] ∧ ∀ c ∈ n, isLegacyChar c = true :=
+  matchExact_metric_chars (matchName_exact hv hn)
+
+theorem isInfix_nil_sep : isInfix sepHash [] = false := by decide
+
+theorem isInfix_of_not_mem {sub s : Str} {c : Char} (hc : c ∈ sub) (hs : c ∉ s) : isInfix sub s = false := by
+  induction s with
+  | nil =>
+    cases sub with
+    | nil => simp at hc
+    | cons _ _ => rfl
+  | cons x xs ih =>
+    have hxs : c ∉ xs := fun e => hs (by simp [e])
+    rw [isInfix, ih hxs, Bool.or_false]
+    apply Bool.eq_false_iff.mpr
+    intro hp
+    have := List.isPrefixOf_iff_prefix.mp hp
+    exact hs (this.subset hc)
+
+/-- case 1: legacy name, no labels -/
+theorem parseSample_bare (legacy : Bool) (pyInt : Str → Option Int) (pyFloat : Str → Option Nat) {n tok : Str}
+    (hv : isValidLegacyMetricName n = true) (hn : n.getLast? ≠ some '\n') (ht : NumTok tok) (ms : Option Int) :
+    parseSample legacy pyInt pyFloat (n ++ ' ' :: valTs tok ms) =
+      (do let (value, ts) ← parseValueAndTimestamp pyInt pyFloat (valTs tok ms)
+          pure ⟨n, [], value, ts⟩) := by
+  obtain ⟨hne, hc⟩ := legacyName_chars hv hn
+  have hplain1 : PlainFor (· == '{') (n ++ ' ' :: valTs tok ms) :=
+    plainFor_append (plainFor_legacy (fun c h => legacyChar_eq_false h (by decide)) hc)
+      (plainFor_valTs (by decide) (fun c h => numChar_eq_false h (by decide)) ht ms)
+  have hls : nextUnquotedChar (n ++ ' ' :: valTs tok ms) (· == '{') = none := by
+    rw [nextUnquotedChar_zero]
+    exact scan_none_of_noHit _ _ _ _ (plain_pass _ _ hplain1).1
+  have hne' : nextUnquotedChar (n ++ ' ' :: valTs tok ms) (fun c => c == ' ' || c == '\t') = some n.length := by
+    rw [nextUnquotedChar_zero]
+    have hp := plain_pass (fun c => c == ' ' || c == '\t') n
+      (plainFor_legacy (fun c h => by simp [legacyChar_ne h (d := ' ') (by decide), legacyChar_ne h (d := '\t') (by decide)]) hc)
+    rw [scan_append_of_noHit _ _ _ _ _ hp.1, hp.2, scan_hit _ ' ' _ false (by decide) (by decide)]
+    simp
+  unfold parseSample
+  simp only [hls, hne', ↓reduceIte, sliceTo, sliceAfter, List.take_left, strip_legacy hc, hv, Bool.not_true, Bool.false_eq_true]
+  rw [← List.drop_drop, List.drop_left]
+  rfl
+
+
+/-- the scanner passes the string from the unquoted state back to the unquoted state without reporting -/
+def Pass (chs : Char → Bool) (s : Str) : Prop := noHit chs s false false = true ∧ run s false false = (false, false)
+
+theorem pass_append {chs : Char → Bool} {a b : Str} (ha : Pass chs a) (hb : Pass chs b) : Pass chs (a ++ b) := by
+  refine ⟨?_, ?_⟩
+  · rw [noHit_append, ha.1, ha.2]; simpa using hb.1
+  · rw [run_append, ha.2]; exact hb.2
+
+theorem pass_plain {chs : Char → Bool} {s : Str} (h : PlainFor chs s) : Pass chs s := plain_pass chs s h
+
+theorem scan_pass_hit {chs : Char → Bool} {p : Str} (hp : Pass chs p) (c : Char) (t : Str) (hq : c ≠ '"') (hc : chs c = true) :
+    nextUnquotedChar (p ++ c :: t) chs = some p.length := by
+  rw [nextUnquotedChar_zero, scan_append_of_noHit _ _ _ _ _ hp.1, hp.2, scan_hit chs c t false hq hc]
+  simp
+
+def rbChs : Char → Bool := (· == '}')
+theorem rbChs_safe : NameSafe rbChs := nameSafe_eq '}' (by decide) (by decide)
+
+theorem keys_ne_name {legacy : Bool} {L : List (Str × Str)} (hok : ∀ x ∈ L, labelNameOK legacy x.1 = true) :
+    L.any (fun kv => kv.1 == nameLabel) = false ∧ L.filter (fun kv => !(kv.1 == nameLabel)) = L := by
+  have hne : ∀ x ∈ L, (x.1 == nameLabel) = false := fun x hx => by
+    have := labelNameOK_ne_name (hok x hx)
+    exact beq_eq_false_iff_ne.mpr this
+  refine ⟨?_, ?_⟩
+  · apply Bool.eq_false_iff.mpr
+    intro h
+    obtain ⟨x, hx, he⟩ := List.any_eq_true.mp h
+    rw [hne x hx] at he; exact absurd he (by decide)
+  · apply List.filter_eq_self.mpr
+    intro x hx; simp [hne x hx]
+
+/-- case 2: legacy name with a label block -/
+theorem parseSample_labels (legacy : Bool) (pyInt : Str → Option Int) (pyFloat : Str → Option Nat) {n tok : Str}
+    (hv : isValidLegacyMetricName n = true) (hn : n.getLast? ≠ some '\n') (ht : NumTok tok) (ms : Option Int)
+    (kv : Str × Str) (r : List (Str × Str)) (hok : ∀ x ∈ kv :: r, labelNameOK legacy x.1 = true)
+    (hnd : ((kv :: r).map (·.1)).Nodup) :
+    parseSample legacy pyInt pyFloat (n ++ '{' :: (labelItem kv ++ tailStr r ++ '}' :: ' ' :: valTs tok ms)) =
+      (do let (value, ts) ← parseValueAndTimestamp pyInt pyFloat (' ' :: valTs tok ms)
+          pure ⟨n, kv :: r, value, ts⟩) := by
+  obtain ⟨hne, hc⟩ := legacyName_chars hv hn
+  have hls : nextUnquotedChar (n ++ '{' :: (labelItem kv ++ tailStr r ++ '}' :: ' ' :: valTs tok ms)) (· == '{') = some n.length :=
+    scan_pass_hit (pass_plain (plainFor_legacy (fun c h => legacyChar_eq_false h (by decide)) hc)) '{' _ (by decide) (by decide)
+  have hpre : Pass rbChs (n ++ '{' :: (labelItem kv ++ tailStr r)) := by
+    have h1 : Pass rbChs n := pass_plain (plainFor_legacy (fun c h => legacyChar_eq_false h (by decide)) hc)
+    have h2 : Pass rbChs ['{'] := pass_plain (by intro c hc; simp at hc; subst hc; exact ⟨by decide, by decide, by decide⟩)
+    have h3 : Pass rbChs (labelItem kv) := item_pass rbChs_safe (by decide) (hok kv (by simp))
+    have h4 : Pass rbChs (tailStr r) := tail_pass rbChs_safe (by decide) (by decide) r (fun x hx => hok x (by simp [hx]))
+    have := pass_append h1 (pass_append h2 (pass_append h3 h4))
+    simpa using this
+  have hle : nextUnquotedChar (n ++ '{' :: (labelItem kv ++ tailStr r ++ '}' :: ' ' :: valTs tok ms)) (· == '}') =
+      some (n ++ '{' :: (labelItem kv ++ tailStr r)).length := by
+    have := scan_pass_hit hpre '}' (' ' :: valTs tok ms) (by decide) (by decide)
+    rw [← this]; congr 1; simp
+  have hinf : isInfix sepHash n = false :=
+    isInfix_of_not_mem (c := ' ') (by decide) (fun hm => legacyChar_ne (hc _ hm) (by decide) rfl)
+  have hnem : n.isEmpty = false := by cases n <;> simp at hne ⊢
+  have htake : ((n ++ '{' :: (labelItem kv ++ tailStr r ++ '}' :: ' ' :: valTs tok ms)).take
+      (n ++ '{' :: (labelItem kv ++ tailStr r)).length).drop (n.length + 1) = labelItem kv ++ tailStr r := by
+    rw [show n ++ '{' :: (labelItem kv ++ tailStr r ++ '}' :: ' ' :: valTs tok ms) =
+      (n ++ '{' :: (labelItem kv ++ tailStr r)) ++ ('}' :: ' ' :: valTs tok ms) by simp]
+    rw [List.take_left]
+    rw [show n ++ '{' :: (labelItem kv ++ tailStr r) = (n ++ ['{']) ++ (labelItem kv ++ tailStr r) by simp]
+    rw [show n.length + 1 = (n ++ ['{']).length by simp]
+    exact List.drop_left
+  have hdrop : (n ++ '{' :: (labelItem kv ++ tailStr r ++ '}' :: ' ' :: valTs tok ms)).drop
+      ((n ++ '{' :: (labelItem kv ++ tailStr r)).length + 1) = ' ' :: valTs tok ms := by
+    rw [show n ++ '{' :: (labelItem kv ++ tailStr r ++ '}' :: ' ' :: valTs tok ms) =
+      (n ++ '{' :: (labelItem kv ++ tailStr r) ++ ['}']) ++ (' ' :: valTs tok ms) by simp]
+    rw [show (n ++ '{' :: (labelItem kv ++ tailStr r)).length + 1 = (n ++ '{' :: (labelItem kv ++ tailStr r) ++ ['}']).length by simp; omega]
+    exact List.drop_left
+  have hkeys := keys_ne_name hok
+  unfold parseSample
+  simp only [hls, hle, List.take_left, hinf, Bool.false_eq_true, ↓reduceIte, Option.getD_some, sliceTo, sliceAfter, htake, hdrop,
+    strip_legacy hc, hnem, parseLabels_items kv r hok hnd, bind, Except.bind, hkeys.1, pure, Except.pure]
+
+/-- case 3: quoted (non-legacy) name inside the braces, with or without further labels -/
+theorem parseSample_quoted (legacy : Bool) (pyInt : Str → Option Int) (pyFloat : Str → Option Nat) {tok : Str} (n : Str)
+    (ht : NumTok tok) (ms : Option Int)
+    (L : List (Str × Str)) (hok : ∀ x ∈ L, labelNameOK legacy x.1 = true) (hnd : (L.map (·.1)).Nodup) :
+    parseSample legacy pyInt pyFloat ('{' :: (qname n ++ tailStr L ++ '}' :: ' ' :: valTs tok ms)) =
+      (do let (value, ts) ← parseValueAndTimestamp pyInt pyFloat (' ' :: valTs tok ms)
+          pure ⟨n, L, value, ts⟩) := by
+  have hls : nextUnquotedChar ('{' :: (qname n ++ tailStr L ++ '}' :: ' ' :: valTs tok ms)) (· == '{') = some 0 := by
+    rw [nextUnquotedChar_zero]; exact scan_hit _ '{' _ false (by decide) (by decide)
+  have hpre : Pass rbChs ('{' :: (qname n ++ tailStr L)) := by
+    have h2 : Pass rbChs ['{'] := pass_plain (by intro c hc; simp at hc; subst hc; exact ⟨by decide, by decide, by decide⟩)
+    have h3 : Pass rbChs (qname n) := quoted_pass rbChs rbChs_safe.quote n
+    have h4 : Pass rbChs (tailStr L) := tail_pass rbChs_safe (by decide) (by decide) L hok
+    have := pass_append h2 (pass_append h3 h4)
+    simpa using this
+  have hle : nextUnquotedChar ('{' :: (qname n ++ tailStr L ++ '}' :: ' ' :: valTs tok ms)) (· == '}') =
+      some ('{' :: (qname n ++ tailStr L)).length := by
+    have := scan_pass_hit hpre '}' (' ' :: valTs tok ms) (by decide) (by decide)
+    rw [← this]; congr 1
+  have htake : (('{' :: (qname n ++ tailStr L ++ '}' :: ' ' :: valTs tok ms)).take
+      ('{' :: (qname n ++ tailStr L)).length).drop (0 + 1) = qname n ++ tailStr L := by
+    rw [show '{' :: (qname n ++ tailStr L ++ '}' :: ' ' :: valTs tok ms) =
+      ('{' :: (qname n ++ tailStr L)) ++ ('}' :: ' ' :: valTs tok ms) by simp]
+    rw [List.take_left]; rfl
+  have hdrop : ('{' :: (qname n ++ tailStr L ++ '}' :: ' ' :: valTs tok ms)).drop
+      (('{' :: (qname n ++ tailStr L)).length + 1) = ' ' :: valTs tok ms := by
+    rw [show '{' :: (qname n ++ tailStr L ++ '}' :: ' ' :: valTs tok ms) =
+      ('{' :: (qname n ++ tailStr L) ++ ['}']) ++ (' ' :: valTs tok ms) by simp]
+    rw [show ('{' :: (qname n ++ tailStr L)).length + 1 = ('{' :: (qname n ++ tailStr L) ++ ['}']).length by simp; omega]
+    exact List.drop_left
+  have hkeys := keys_ne_name hok
+  have hfind : List.find? (fun kv => kv.1 == nameLabel) (("__name__".toList, n) :: L) = some ("__name__".toList, n) := by
+    rw [List.find?_cons]; rfl
+  have hfilter : List.filter (fun kv => !(kv.1 == nameLabel)) (("__name__".toList, n) :: L) = L := by
+    rw [List.filter_cons]
+    have : (!(("__name__".toList, n).1 == nameLabel)) = false := by
+      show (!("__name__".toList == nameLabel)) = false
+      decide
+    simp only [this, Bool.false_eq_true, ↓reduceIte]
+    exact hkeys.2
+  unfold parseSample
+  simp only [hls, hle, List.take_zero, isInfix_nil_sep, Bool.false_eq_true, ↓reduceIte, Option.getD_some, sliceTo, sliceAfter,
+    htake, hdrop, strip_nil, List.isEmpty_nil, parseLabels_named n L hok hnd, bind, Except.bind, hfind, hfilter, pure, Except.pure]
+
+
+/-- the samples the line-level round trip is stated for -/
+structure SampleOK (legacy : Bool) (s : Sample) : Prop where
+  /-- label names accepted by `_validate_labelname`, no F2 label name, unique keys -/
+  labels : LabelsOK legacy s.labels
+  /-- F2 exclusion for the sample name: a name the legacy pattern accepts does not end in a line feed -/
+  nameNoF2 : isValidLegacyMetricName s.name = true → s.name.getLast? ≠ some '\n'
+  /-- the rendered value is a number token (digits, `e . + -`, `Inf`, `NaN`) -/
+  tok : NumTok (Utils.floatToGoString s.value)
+
+/-- the millisecond count written on the line -/
+def millisOf (s : Sample) : Option Int := s.ts.map (·.millis)
+
+theorem labels_isEmpty_iff (ls : List (Str × Str)) : ls.isEmpty = (sortByKey ls).isEmpty := by
+  have := (sortByKey_perm ls).length_eq
+  cases ls <;> cases h : sortByKey _ <;> simp_all
+
+theorem labelStr_nonempty {ls : List (Str × Str)} {kv : Str × Str} {r : List (Str × Str)} (h : sortByKey ls = kv :: r) :
+    (labelStr ls).isEmpty = false := by
+  rw [labelStr_of_sorted h]
+  have := item_nonempty kv
+  cases hh : labelItem kv with
+  | nil => rw [hh] at this; simp at this
+  | cons _ _ => rfl
+
+/-- the three shapes of a rendered sample line -/
+theorem sampleLine_shape (s : Sample) :
+    sampleLine s =
+      (if isValidLegacyMetricName s.name then
+        match sortByKey s.labels with
+        | [] => s.name
+        | kv :: r => s.name ++ '{' :: (labelItem kv ++ tailStr r ++ ['}'])
+       else '{' :: (qname s.name ++ tailStr (sortByKey s.labels) ++ ['}'])) ++
+      ' ' :: valTs (Utils.floatToGoString s.value) (millisOf s) ++ ['\n'] := by
+  unfold sampleLine valTs millisOf
+  cases hs : sortByKey s.labels with
+  | nil =>
+    have he : s.labels.isEmpty = true := by rw [labels_isEmpty_iff, hs]; rfl
+    by_cases hv : isValidLegacyMetricName s.name = true
+    · cases hT : s.ts <;> simp [he, hv]
+    · cases hT : s.ts <;> simp [he, hv, escapeMetricName, qname, tailStr]
+  | cons kv r =>
+    have he : s.labels.isEmpty = false := by rw [labels_isEmpty_iff, hs]; rfl
+    have hne := labelStr_nonempty hs
+    rw [labelStr_of_sorted hs] at hne
+    by_cases hv : isValidLegacyMetricName s.name = true
+    · cases hT : s.ts <;>
+        simp only [he, hv, Bool.false_eq_true, ↓reduceIte, hne, labelStr_of_sorted hs, Option.map] <;> simp
+    · cases hT : s.ts <;>
+        simp only [he, hv, Bool.false_eq_true, ↓reduceIte, hne, labelStr_of_sorted hs, escapeMetricName, qname, tailStr_cons,
+          Option.map] <;> simp
+
+/-- **a rendered sample line parses back to the sample**: same name, the label dict (sorted by key), the value token
+read by the number parameters, the millisecond count (to be divided by 1000) -/
+theorem sample_line_roundtrip (legacy : Bool) (pyInt : Str → Option Int) (pyFloat : Str → Option Nat) (s : Sample) (b : Nat)
+    (h : SampleOK legacy s)
+    (hi : pyInt (Utils.floatToGoString s.value) = none) (hf : pyFloat (Utils.floatToGoString s.value) = some b)
+    (hms : ∀ m, millisOf s = some m → pyInt (intStr m) = some m ∧ intDivOverflows m = false) :
+    parseSample legacy pyInt pyFloat (strip (sampleLine s)) =
+      .ok ⟨s.name, sortByKey s.labels, .flt b, (millisOf s).map (fun m => ⟨.int m⟩)⟩ := by
+  have hp := sortByKey_perm s.labels
+  have hok : ∀ x ∈ sortByKey s.labels, labelNameOK legacy x.1 = true := fun x hx => h.labels.1 x (hp.mem_iff.mp hx)
+  have hnd : ((sortByKey s.labels).map (·.1)).Nodup := (hp.map _).nodup_iff.mpr h.labels.2
+  have hpv : parseValue pyInt pyFloat (Utils.floatToGoString s.value) = .ok (.flt b) := by
+    rw [parseValue_numTok _ _ h.tok, hi, hf]
+  have hpvt : ∀ lead : Bool, parseValueAndTimestamp pyInt pyFloat ((if lead then [' '] else []) ++ valTs (Utils.floatToGoString s.value) (millisOf s)) =
+      .ok (.flt b, (millisOf s).map (fun m => ⟨.int m⟩)) := by
+    intro lead
+    rw [pvt_valTs _ _ h.tok]
+    cases hm : millisOf s with
+    | none => simp only [hpv, bind, Except.bind]; rfl
+    | some m =>
+      obtain ⟨h1, h2⟩ := hms m hm
+      have : parseValue pyInt pyFloat (intStr m) = .ok (.int m) := by
+        rw [parseValue_numTok _ _ (intStr_numTok m), h1]
+      simp only [hpv, this, bind, Except.bind, divThousand, h2, Bool.false_eq_true, ↓reduceIte]
+      rfl
+  have hpvt0 := hpvt false
+  have hpvt1 := hpvt true
+  simp only [Bool.false_eq_true, ↓reduceIte, List.nil_append, List.singleton_append] at hpvt0 hpvt1
+  rw [sampleLine_shape]
+  by_cases hv : isValidLegacyMetricName s.name = true
+  · obtain ⟨hne, hc⟩ := legacyName_chars hv (h.nameNoF2 hv)
+    obtain ⟨a, t, ea⟩ : ∃ a t, s.name = a :: t := by
+      cases hn : s.name with
+      | nil => exact absurd hn hne
+      | cons a t => exact ⟨a, t, rfl⟩
+    have has : isPySpace a = false := legacyChar_not_space (hc a (by rw [ea]; simp))
+    simp only [hv, ↓reduceIte]
+    cases hs : sortByKey s.labels with
+    | nil =>
+      simp only []
+      rw [strip_line (a := a) (by rw [ea]; rfl) has h.tok, parseSample_bare legacy pyInt pyFloat hv (h.nameNoF2 hv) h.tok, hpvt0]
+      rfl
+    | cons kv r =>
+      simp only []
+      rw [hs] at hok hnd
+      rw [strip_line (a := a) (by rw [ea]; rfl) has h.tok]
+      rw [show s.name ++ '{' :: (labelItem kv ++ tailStr r ++ ['}']) ++ ' ' :: valTs (Utils.floatToGoString s.value) (millisOf s) =
+        s.name ++ '{' :: (labelItem kv ++ tailStr r ++ '}' :: ' ' :: valTs (Utils.floatToGoString s.value) (millisOf s)) by simp]
+      rw [parseSample_labels legacy pyInt pyFloat hv (h.nameNoF2 hv) h.tok _ kv r hok hnd, hpvt1]
+      rfl
+  · simp only [hv, Bool.false_eq_true, ↓reduceIte]
+    rw [strip_line (a := '{') rfl (by decide) h.tok]
+    rw [show '{' :: (qname s.name ++ tailStr (sortByKey s.labels) ++ ['}']) ++ ' ' :: valTs (Utils.floatToGoString s.value) (millisOf s) =
+      '{' :: (qname s.name ++ tailStr (sortByKey s.labels) ++ '}' :: ' ' :: valTs (Utils.floatToGoString s.value) (millisOf s)) by simp]
+    rw [parseSample_quoted legacy pyInt pyFloat s.name h.tok _ _ hok hnd, hpvt1]
     rfl
 
 end PromVerif.Lemmas.TextParse
